@@ -111,8 +111,13 @@ func runC14(c *Ctx) {
 	sort.Slice(rets, func(i, j int) bool { return rets[i].r.Pos() < rets[j].r.Pos() })
 	nDelay, nNo := 0, 0
 	for _, rs := range rets {
-		dv, ok := EvalConst(rs.r.Results[1], rs.st)
-		if !ok {
+		comps := ResultComponents(rs.r) // a small result struct reads like separate results
+		if len(comps) < 4 {
+			c.Undecided("R1", "delayedSmudge:delayed-flag", p.InstrPos(rs.r), "unexpected result shape")
+			continue
+		}
+		dv, ok := EvalConst(comps[1], rs.st)
+		if !ok || dv.Value == nil || dv.Value.Kind() != constant.Bool {
 			c.Undecided("R1", "delayedSmudge:delayed-flag", p.InstrPos(rs.r), "the delayed result is not a constant on this path")
 			continue
 		}
@@ -126,7 +131,7 @@ func runC14(c *Ctx) {
 		nNo++
 		if rs.seq == "" {
 			// exception row: the object path could not be created (environment fault)
-			errv := rs.r.Results[3]
+			errv := comps[3]
 			isObjPath := false
 			for _, l := range p.LeavesNoFields(errv, func(v ssa.Value) FlowAct {
 				if cc, _, ok := CallResult(v); ok && CalleeName(cc.Common()) == "(*fs.Filesystem).ObjectPath" {
@@ -225,7 +230,7 @@ func runC14(c *Ctx) {
 					}
 				}
 			}
-			if ex, ok := v.(*ssa.Extract); ok && dsCall != nil && ex.Tuple == ssa.Value(dsCall) && ex.Index == 1 && a.delayed != "" {
+			if cc, idx, ok := CallResultFlat(v); ok && dsCall != nil && cc == dsCall && idx == 1 && a.delayed != "" && short(v.Type().String()) == "bool" {
 				return boolConst(a.delayed == "true", v.Type()), true
 			}
 			return nil, false
@@ -419,7 +424,7 @@ func runC14(c *Ctx) {
 			if mu, ok := in.(*ssa.MapUpdate); ok && strings.Contains(short(mu.Map.Type().String()), "lfs.Pointer") {
 				pass := PassEdges(fc, func(cond ssa.Value) (bool, bool) {
 					if dsCall != nil {
-						if ex, ok := cond.(*ssa.Extract); ok && ex.Tuple == ssa.Value(dsCall) && ex.Index == 1 {
+						if cc, idx, ok := CallResultFlat(cond); ok && cc == dsCall && idx == 1 && short(cond.Type().String()) == "bool" {
 							return true, true
 						}
 						if ResultOfCall(cond, dsCall, 1) {
